@@ -12,6 +12,10 @@ commutes with column selection, fancy-index assignment read back cell by cell, t
 Part B is over a linearly ordered field: the bracket chosen by `searchsorted` + `clip`, the convex-combination
 bounds of scipy's linear kernel.
 -/
+set_option linter.unusedSectionVars false
+set_option linter.unusedSimpArgs false
+set_option linter.unnecessarySeqFocus false
+
 namespace MjProof.TimeSeries
 
 /-! ## Part A: structure -/
